@@ -803,6 +803,18 @@ func (w *World) TrueQC(qc hotstuff.QuorumCert) (Verdict, map[hotstuff.ID]bool) {
 }
 
 // TrueTC judges a timeout certificate.
+// ViewEncodingAmbiguous reports whether the bytes that are signed for view v are also the bytes of another view
+// (v with one bit flipped): a signature over such bytes is not a signature over "exactly" the view v, whoever made it.
+func ViewEncodingAmbiguous(v hotstuff.View) bool {
+	b := v.ToBytes()
+	for k := uint(0); k < 64; k++ {
+		if bytes.Equal(b, (v ^ hotstuff.View(1)<<k).ToBytes()) {
+			return true
+		}
+	}
+	return false
+}
+
 func (w *World) TrueTC(tc hotstuff.TimeoutCert) (Verdict, map[hotstuff.ID]bool) {
 	if tc.View() == 0 {
 		if tc.Signature() == nil {
@@ -812,6 +824,9 @@ func (w *World) TrueTC(tc hotstuff.TimeoutCert) (Verdict, map[hotstuff.ID]bool) 
 	}
 	if tc.Signature() == nil {
 		return MustReject, nil
+	}
+	if ViewEncodingAmbiguous(tc.View()) {
+		return MustReject, nil // nobody can have signed exactly this view
 	}
 	signers := w.TrueSigners(tc.Signature(), func(hotstuff.ID) []byte { return tc.View().ToBytes() })
 	if len(signers) < w.Q() {
@@ -825,6 +840,9 @@ func (w *World) TrueTC(tc hotstuff.TimeoutCert) (Verdict, map[hotstuff.ID]bool) 
 func (w *World) TrueAggQC(agg hotstuff.AggregateQC) (Verdict, map[hotstuff.ID]bool, *hotstuff.QuorumCert) {
 	if agg.Sig() == nil {
 		return MustReject, nil, nil
+	}
+	if ViewEncodingAmbiguous(agg.View()) {
+		return MustReject, nil, nil // nobody can have signed exactly a timeout message of this view
 	}
 	signers := w.TrueSigners(agg.Sig(), func(id hotstuff.ID) []byte {
 		qc, ok := agg.QCs()[id]
